@@ -282,7 +282,7 @@ func (s *Sim) Hit(site int) {
 			return
 		}
 	}
-	if s.pDelayDen > 0 && t.delays < 2 && site >= 0 && site < len(verifhook.Sites) && verifhook.Sites[site].Kind == "unlocked" &&
+	if s.pDelayDen > 0 && !t.quiet && t.delays < 2 && site >= 0 && site < len(verifhook.Sites) && verifhook.Sites[site].Kind == "unlocked" &&
 		mix64(s.seed^0xd1a7, verifhook.Sites[site].File, uint64(verifhook.Sites[site].Line))%uint64(s.pDelayDen) == 0 {
 		t.delays++
 		if h2 := mix64(s.seed^0x57a1, verifhook.Sites[site].File, uint64(verifhook.Sites[site].Line)+uint64(t.hits)<<20); s.stallSteps > 0 && h2&1 == 1 {
@@ -299,7 +299,7 @@ func (s *Sim) Hit(site int) {
 		s.park(t, kHit, site)
 		return
 	}
-	if s.pHoldDen > 0 && t.holds < 2 && site >= 0 && site < len(verifhook.Sites) && verifhook.Sites[site].Kind == "locked" &&
+	if s.pHoldDen > 0 && !t.quiet && t.holds < 2 && site >= 0 && site < len(verifhook.Sites) && verifhook.Sites[site].Kind == "locked" &&
 		mix64(s.seed^0x401d, verifhook.Sites[site].File, uint64(verifhook.Sites[site].Line))%uint64(s.pHoldDen) == 0 {
 		t.holds++
 		t.stallUntil = time.Now().Add(s.holdFor)
